@@ -54,7 +54,7 @@ Fixpoint cstr (p : bytes) : Cres bytes :=
   end.
 
 (** strncmp(a, b, n) == 0 *)
-Fixpoint strncmp_eq (a b : bytes) (n : nat) : Cres bool :=
+Fixpoint strncmp_eq (a b : bytes) (n : nat) {struct n} : Cres bool :=
   match n with
   | O => Ok true
   | S n' =>
